@@ -1,0 +1,9 @@
+//go:build verif
+
+package fuse
+
+import "bazil.org/fuse/fs"
+
+// VerifAttachServer attaches a connection-less fs.Server so that kernel
+// notifications report "not cached" instead of dereferencing a nil server.
+func (fsys *FileSystem) VerifAttachServer() { fsys.server = fs.New(nil, nil) }
